@@ -351,10 +351,10 @@ class EvoWorklist(BaseWorklist):
             else:
                 label = f"{lvh_extra} LVH steps"
         if destination == source:
-            source.condense_log(nsteps * 2, label=label)
+            source.condense_log(nsteps * 2, label=label, literal=True)
         else:
-            source.condense_log(nsteps, label=label)
-            destination.condense_log(nsteps, label=label)
+            source.condense_log(nsteps, label=label, literal=True)
+            destination.condense_log(nsteps, label=label, literal=True)
         return
 
 
